@@ -39,7 +39,7 @@ use shuttle::sync::{
     mpsc, Mutex,
 };
 #[cfg(calloop_verif_shuttle)]
-use std::sync::Arc;
+use crate::verif::Arc;
 
 use crate::{
     sources::{
